@@ -104,6 +104,28 @@ def native_cases():
         (Range[int], Range(start=0, end=10, n=6), 'Range'), (ValueOrList[int], ValueOrList.from_val(3), 'ValueOrList'),
         (complex, 1 + 2j, 'complex'), (bytes, b'ab', 'bytes'),
     ]
+    # dataclass fields typed as unions whose members overlap on *typed* values: the serialiser must not narrow the value
+    # (values whose serialised form is read by an *earlier* member are the recorded overlapping-union finding and are left out)
+    union_fields = [
+        (t.Union[datetime.date, datetime.datetime], [datetime.datetime(2020, 1, 2, 3, 4, 5), datetime.date(2020, 1, 2)], 'date|datetime'),
+        (t.Union[datetime.time, datetime.datetime], [datetime.datetime(2020, 1, 2, 3, 4, 5), datetime.time(3, 4)], 'time|datetime'),
+        (t.Union[int, float], [1, 1.5, 2.0], 'int|float'), (t.Union[float, int], [1.5], 'float|int'),
+        (t.Union[fractions.Fraction, decimal.Decimal], [fractions.Fraction(1, 3)], 'Fraction|Decimal'),
+        (t.Union[t.Tuple[int, ...], t.List[int]], [(1, 2)], 'tuple|list'),
+        (t.Union[t.FrozenSet[int], t.Set[int]], [frozenset({3})], 'frozenset|set'),
+        (t.Union[Color, str], [Color.RED, 'other'], 'enum|str'), (t.Union[bool, int], [True, 1, 0], 'bool|int'),
+        (t.Optional[t.Union[int, P]], [P(1), 3, None], 'optional int|dataclass'),
+    ]
+    for uty, vals, label in union_fields:
+        import types as _types
+        F = _types.new_class('F_' + ''.join(ch for ch in label if ch.isalnum()), (pane.PaneBase,), {},
+                             lambda d, uty=uty: d.update({'__annotations__': {'u': uty, 'many': t.List[uty]}, 'many': pane.field(default_factory=list)}))
+        for v in vals:
+            try:
+                inst = F.make_unchecked(u=v, many=[v])
+            except Exception:
+                continue
+            base.append((F, inst, f'field {label} = {type(v).__name__}'))
     out = list(base)
     for ty, v, label in base:
         if label in ('Range', 'ValueOrList'):
@@ -126,7 +148,7 @@ def run(ctx, out):
                 'instance, Range, ValueOrList) alone and nested in list/dict/tuple; (c) idempotence; (d) constructors given typed '
                 'arguments. Types with externally/adjacently tagged unions are outside the property. Non-trivial = non-leaf type.')
     items = []
-    cases = convprop.run(ctx, out, PROP, monitor_factory(items), cfg={'weights': {'class': 2.5, 'enum': 1.2, 'seq': 2.5, 'std': 1.5}})
+    cases = convprop.run(ctx, out, PROP, monitor_factory(items), cfg={'overlap': True, 'weights': {'class': 3.0, 'enum': 1.2, 'seq': 2.0, 'std': 1.5, 'union': 2.5}})
     # (b) native values
     n = 0
     for T, x, label in native_cases():
